@@ -5,7 +5,7 @@ MaxCalls == IF IOEnv.LAYOUT_CALLS = "2" THEN 2 ELSE IF IOEnv.LAYOUT_CALLS = "3" 
 EmitOn == IOEnv.LAYOUT_EMIT = "1"
 AllSchemas == Schemas2 \cup {S \in Schemas3 : \A i, j \in 1..3 : i # j => S.structs[2].fields[i].id # S.structs[2].fields[j].id}
 
-MCInit == \E S \in AllSchemas : \E u \in BOOLEAN : UnrollOk(S, u) /\ LInit(S, u)
+MCInit == \E S \in AllSchemas : \E u \in BOOLEAN : LInit(S, u)     \* arrays of structs without unrolling included: those calls are refused
 MCNext == LNext(Range(Impls), MaxCalls)
 MCSpec == MCInit /\ [][MCNext]_lvars
 
